@@ -25,3 +25,15 @@ func vSharedOpts() *ExpandOptions {
 	vShare(o, "opts")
 	return o
 }
+
+func vSharedRootAndCache() (*Swagger, ResolutionCache) {
+	root := new(Swagger)
+	_ = json.Unmarshal([]byte(vC17RootDoc), root)
+	c := defaultResolutionCache()
+	var s Schema
+	_ = json.Unmarshal([]byte(`{"$ref":"#/definitions/B"}`), &s)
+	_ = ExpandSchema(&s, root, c) // an earlier call, finished before the goroutines start
+	vShare(root, "root")
+	vShare(c, "warmcache")
+	return root, c
+}
